@@ -178,9 +178,7 @@ static Scenario make_c10(std::map<std::string, long> const&)
     }
     faults += format_faults;
     if (!flush1 || (s.c("two", 1) != 0 && !flush2))
-    {
-      if (!w.vars.count("stall")) w.fail("flush-did-not-return", "flush_log() of a thread never returned");
-    }
+      w.fail("flush-did-not-return", "flush_log() of a thread never returned although the backend keeps polling");
     // compare only the ok statements; error-text / skipped renderings of faulty statements are allowed anywhere
     auto filter_ok = [&w](int sink)
     {
